@@ -111,6 +111,9 @@ func sweepRequires(fn *ssa.Function) []string {
 		case walkerEntry[fn.Name()] && isAstIfaceSlice(t):
 			// the statement / expression list handed to a walker is a list of the analysed tree
 			rs = append(rs, fmt.Sprintf("forall i int :: (0 <= i && i < len(%s)) ==> (!isNilIface(%s[i]) && tnode(%s[i]))", name, name, name), "astlist("+name+")")
+		case isRxExpr(t):
+			// assume/guarantee: a regexp expression passed between functions of the checkers is part of a parsed pattern
+			rs = append(rs, "rxvalid("+name+")")
 		case isAstNodeSlice(t):
 			// assume/guarantee: a list of syntax nodes passed between functions of the checkers is a list of the analysed tree
 			if isAstIfaceSlice(t) {
@@ -447,7 +450,7 @@ func sweepHookOpts(prop string, keep func(o *Obligation) bool, frames bool) prop
 func writeLedger(prop string, jobs []job) {
 	var names []string
 	for _, j := range jobs {
-		if !j.o.Cover && j.o.Result == "unsat" && j.o.TimeS < 2.0 {
+		if !j.o.Cover && j.o.Result == "unsat" && j.o.TimeS < 1.0 {
 			names = append(names, j.o.Name)
 		}
 	}
@@ -456,7 +459,7 @@ func writeLedger(prop string, jobs []job) {
 	os.WriteFile(filepath.Join(verifDir, "ledger", prop+".proved"), []byte(strings.Join(names, "\n")+"\n"), 0o644)
 	var fr []string
 	for _, j := range jobs {
-		if !j.o.Cover && !(j.o.Result == "unsat" && j.o.TimeS < 2.0) {
+		if !j.o.Cover && !(j.o.Result == "unsat" && j.o.TimeS < 1.0) {
 			fr = append(fr, j.o.Name)
 		}
 	}
